@@ -12,6 +12,7 @@ import (
 	"time"
 
 	"github.com/tobgu/qframe"
+	"github.com/tobgu/qframe/aggregation"
 	"github.com/tobgu/qframe/config/eval"
 	"github.com/tobgu/qframe/config/groupby"
 	"github.com/tobgu/qframe/types"
@@ -24,7 +25,7 @@ func init() {
 	fw.Register(&fw.Property{
 		ID:    "C11",
 		Level: "exploration",
-		Rule: "systematic first: every unordered pair (incl. self pairs) of operation kinds {Filter numeric/like/ilike/user predicate/composite/enum set, Sort, Distinct, GroupBy->Aggregate, GroupBy->QFrames, Apply 0/1/2 argument, built-in ToUpper on string and enum, constant/copy, FilteredApply, Eval with default and with one shared user context, WithRowNums, Select/Drop/Slice/Copy, all typed views, ToCSV, ToJSON, String, Equals, ByteSize/ColumnTypeMap} " +
+		Rule: "systematic first: every unordered pair (incl. self pairs) of operation kinds {Filter numeric/like/ilike/user predicate/composite/enum set, Sort, Distinct, GroupBy->Aggregate (built-ins, user functions, one shared function value from aggregation.StrJoin), GroupBy->QFrames, Apply 0/1/2 argument, built-in ToUpper on string and enum, constant/copy, FilteredApply, Eval with default and with one shared user context, WithRowNums, Select/Drop/Slice/Copy, all typed views, ToCSV, ToJSON, String, Equals, ByteSize/ColumnTypeMap} " +
 			"runs concurrently (2 goroutines per side, common barrier, 2 repetitions of two back-to-back executions, GOMAXPROCS varied, user callbacks that yield) on the same frame / on a frame and one derived from it sharing its index array / on two siblings sharing columns / on a parent that was itself produced by adding a column, for root kinds slice-backed, Const*, CSV-blob-backed and enum-heavy; then random storms of 2-16 goroutines; " +
 			"deciding instruments: the Go race detector (every worker runs the -race build; reports are collected from its log) and comparison of every concurrent result with the same operation's result computed alone before and after; " +
 			"evaluation = one concurrent execution of one operation; non-trivial = pair execution whose two sides overlapped in time (measured from one monotonic clock); distinct by (operation pair, relation, root kind)",
@@ -57,6 +58,8 @@ type c11Env struct {
 	cols map[model.Kind][]string
 	ctx  *eval.Context
 	n    int
+	// one function value obtained from the library, used by every goroutine of the case
+	strJoin func([]*string) *string
 }
 
 type c11Op struct {
@@ -153,6 +156,10 @@ func c11Ops() []c11Op {
 			g := f.GroupBy(groupby.Columns(col(e, model.KString, 0)), groupby.Null(true))
 			return hashFrame(g.Aggregate(qframe.Aggregation{Fn: "sum", Column: col(e, model.KInt, 0)}, qframe.Aggregation{Fn: "count", Column: col(e, model.KBool, 0)},
 				qframe.Aggregation{Fn: func(v []float64) float64 { yield(); return float64(len(v)) }, Column: col(e, model.KFloat, 0)}), false)
+		}},
+		{"GroupBy.Aggregate(library StrJoin, one shared function value)", func(e *c11Env, f qframe.QFrame, _ func()) uint64 {
+			g := f.GroupBy(groupby.Columns(col(e, model.KInt, 0), col(e, model.KBool, 0)))
+			return hashFrame(g.Aggregate(qframe.Aggregation{Fn: e.strJoin, Column: col(e, model.KString, 0), As: "joined"}, qframe.Aggregation{Fn: e.strJoin, Column: col(e, model.KEnum, 1), As: "joinede"}), false)
 		}},
 		{"GroupBy().Aggregate(in-place median)", func(e *c11Env, f qframe.QFrame, yield func()) uint64 {
 			// a median sorts the slice it is handed: legal, the slice is documented to be the callback's to use during the call
@@ -297,9 +304,10 @@ var c11Relations = []string{"same-frame", "parent-child(shared index)", "sibling
 
 func c11Root(rng *rand.Rand, kind string, n int) (qframe.QFrame, *c11Env, error) {
 	f := &model.Frame{}
-	env := &c11Env{rng: rng, cols: map[model.Kind][]string{}, ctx: newCtx(), n: n}
-	enumVals := []string{"v1", "v2", "v3", "V4", "ab", "Ab"}
-	strs := []string{"a", "ab", "aB", "xab", "b", "", "äb", "a-b", "ı", "ß"}
+	env := &c11Env{rng: rng, cols: map[model.Kind][]string{}, ctx: newCtx(), n: n, strJoin: aggregation.StrJoin("|")}
+	// values include bytes that every writer has to escape (control characters, quotes, backslash, multi-byte runes)
+	enumVals := []string{"v1", "v2", "v3", "V4", "ab", "Ab", "v\x02", "q\"v"}
+	strs := []string{"a", "ab", "aB", "xab", "b", "", "äb", "a-b", "ı", "ß", "\x01a", "a\x1fb", "\x00", "\x07\x08\x0c", "q\"uote", "back\\slash", "日本ɐɐɐɐɐɐa"}
 	for j := 0; j < 2; j++ {
 		for _, k := range model.AllKinds {
 			name := fmt.Sprintf("%s%d", k.String()[:1], j)
